@@ -4,6 +4,7 @@ import (
 	"fmt"
 
 	"github.com/orbs-network/lean-helix-go/services/interfaces"
+	"github.com/orbs-network/lean-helix-go/spec/types/go/protocol"
 )
 
 func init() { suites["node"] = suiteNode }
@@ -60,6 +61,10 @@ func suiteNode(c *Ctx) {
 	}
 	scenarioD5Fork(c)
 	c.Class("scenario/d5-fork")
+	scenarioTwoLocks(c)
+	c.Class("scenario/two-locks")
+	scenarioEquivocationCommit(c)
+	c.Class("scenario/equivocation-commit")
 	// adversarial scenarios: Byzantine members of total weight <= f, all strategies
 	nadv := 60
 	if c.Thorough() {
@@ -276,5 +281,89 @@ func scenarioD5Fork(c *Ctx) *Net {
 	net.adv.inject(n3, pp, "bare-pp-gt0")
 	deliverWhere(func(f *Flight) bool { return typ(f) == "*interfaces.PrepareMessage" && string(f.To) != string(n0.Id) })
 	deliverWhere(func(f *Flight) bool { return typ(f) == "*interfaces.CommitMessage" && string(f.To) != string(n0.Id) })
+	return net
+}
+
+
+// two-locks: the wire holds prepared certificates for two different blocks in two views (X in view
+// 0, Y in view 1); the Byzantine leader of view 2 sends a NEW_VIEW whose votes list the higher proof
+// first and the lower one last and re-proposes the OLDER block X.
+func scenarioTwoLocks(c *Ctx) *Net {
+	// 7 equal members, f = 2, Q = 5; Byzantine: members 1 and 2 (leaders of views 1 and 2)
+	net := NewNet(c, NetOpts{N: 7, Weights: []uint64{1, 1, 1, 1, 1, 1, 1}, ByzIdx: []int{1, 2}, Inst: 100}, "two-locks n=7 byz=[1 2]")
+	net.start()
+	a := net.adv
+	inst := uint64(100)
+	typ := func(f *Flight) string { return fmt.Sprintf("%T", interfaces.ToConsensusMessage(f.Raw)) }
+	// view 0: the honest leader's proposal X reaches members 3 and 4 only; their PREPAREs go on the wire but are delivered to nobody
+	var keep []*Flight
+	for _, f := range net.pool {
+		if typ(f) == "*interfaces.PreprepareMessage" && (string(f.To) == string(memberId(3)) || string(f.To) == string(memberId(4))) {
+			keep = append(keep, f)
+		}
+	}
+	net.pool = nil
+	for _, f := range keep {
+		net.deliverFlight(f)
+	}
+	net.pool = nil
+	// everybody times out to view 1 (votes go to the Byzantine leader 1; nobody is prepared)
+	for _, n := range net.order {
+		net.timeout(n, false)
+	}
+	net.pool = nil
+	// view 1: Byzantine leader proposes a fresh block Y with genuine (proof-less) votes; honest members prepare Y
+	y := a.newBlock(1, false)
+	votes1 := a.genuineVotes(1, 1, true, nil)
+	pp1 := a.ppContent(memberId(1), protocol.LEAN_HELIX_PREPREPARE, inst, 1, 1, blockHash(y))
+	a.toAll(a.mkNV(memberId(1), protocol.LEAN_HELIX_NEW_VIEW, inst, 1, 1, votes1, pp1, y), "nv-by-the-book")
+	net.pool = nil // their PREPAREs for Y are on the wire (seen), but delivered to nobody: no honest node becomes prepared
+	// everybody times out to view 2
+	for _, n := range net.order {
+		net.timeout(n, false)
+	}
+	net.pool = nil
+	// view 2: Byzantine leader 2 holds certificates (0, X) and (1, Y); it lists Y's first and X's last and re-proposes X
+	proofX, blkX := a.genuineProof(1, 0)
+	proofY, _ := a.genuineProof(1, 1)
+	if proofX == nil || proofY == nil || blkX == nil {
+		c.Class("scenario/two-locks/not-reached")
+		return net
+	}
+	votes2 := a.genuineVotes(1, 2, false, nil)
+	votes2 = append(votes2, a.vcContent(memberId(1), protocol.LEAN_HELIX_VIEW_CHANGE, inst, 1, 2, proofY))
+	votes2 = append(votes2, a.vcContent(memberId(2), protocol.LEAN_HELIX_VIEW_CHANGE, inst, 1, 2, proofX))
+	pp2 := a.ppContent(memberId(2), protocol.LEAN_HELIX_PREPREPARE, inst, 1, 2, blockHash(blkX))
+	a.toAll(a.mkNV(memberId(2), protocol.LEAN_HELIX_NEW_VIEW, inst, 1, 2, votes2, pp2, blkX), "nv-lower-lock-listed-last")
+	return net
+}
+
+
+// equivocation-commit: a Byzantine leader of view 0 sends proposal A to one correct member and
+// proposal B to the others; the others prepare and commit B; their COMMITs for B then reach the
+// member that stored A.
+func scenarioEquivocationCommit(c *Ctx) *Net {
+	// 7 equal members, f = 2; Byzantine: member 0 (leader of view 0) and member 1
+	net := NewNet(c, NetOpts{N: 7, Weights: []uint64{1, 1, 1, 1, 1, 1, 1}, ByzIdx: []int{0, 1}, Inst: 100}, "equivocation-commit n=7 byz=[0 1]")
+	net.start()
+	a := net.adv
+	inst := uint64(100)
+	victim := net.nodes[string(memberId(2))]
+	blkA, blkB := a.newBlock(1, false), a.newBlock(1, false)
+	a.inject(victim, a.mkPP(memberId(0), inst, 1, 0, blkA), "equivocate-pp")
+	for _, n := range net.order {
+		if n != victim {
+			a.inject(n, a.mkPP(memberId(0), inst, 1, 0, blkB), "equivocate-pp")
+		}
+	}
+	a.toAll(a.mkP(memberId(1), protocol.LEAN_HELIX_PREPARE, inst, 1, 0, blockHash(blkB)), "byz-prepare")
+	a.toAll(a.mkC(memberId(1), protocol.LEAN_HELIX_COMMIT, inst, 1, 0, blockHash(blkB)), "byz-commit")
+	a.toAll(a.mkC(memberId(0), protocol.LEAN_HELIX_COMMIT, inst, 1, 0, blockHash(blkB)), "byz-commit")
+	// deliver everything (FIFO) until quiet
+	for guard := 0; guard < 3000 && len(net.pool) > 0; guard++ {
+		f := net.pool[0]
+		net.pool = net.pool[1:]
+		net.deliverFlight(f)
+	}
 	return net
 }
